@@ -52,6 +52,18 @@ prop('C12', 'other',
      'topologies <= 5 buses / 6 series devices / 2 slacks.',
      'path-forking symbolic execution of real code on symbolic statuses + z3 per-path queries', 'DESIGN.md 3/C12')
 
+prop('C06', 'model_checking',
+     'Inductive step over the real loop of TDS.run: body, test and epilogue are cut from the AST of the current source and run '
+     'under pysym (real do_switch/calc_h, integration stubbed by a free success flag) from every symbolic pre-state that satisfies '
+     'the time-grid invariant; z3 decides per path that the invariant is re-established, an event is dispatched iff the accepted '
+     'time equals the pending switch time (once, to the owning models), no step crosses a pending event or tf, the accepted '
+     'stamp is stored once, progress is strict, exit without bust implies t == tf and success. Base case after init; real '
+     'store_switch_times, TimerParam.is_time and Toggle/Fault/Alter callbacks on symbolic times. Thorough adds the binary64 '
+     'exact-landing lemma (z3 FloatingPoint).',
+     'time is a real number in the inductive step (float landing is a separate lemma for 0<=t<=u<=2t); 3 pending events, one '
+     'iteration per query; itm_step/store/progress bar stubbed (listed in evidence); an event exactly at t0 is a listed known finding.',
+     'bounded symbolic execution of the real loop body + z3 inductive invariant check', 'DESIGN.md 3/C06')
+
 ORDER = ['C%02d' % i for i in range(1, 21)]
 checks, na = [], []
 for pid in ORDER:
